@@ -195,14 +195,17 @@ Qed.
 
 (* ------------------------------------------------------------------ footprint logic for the sensitivity operations
    n0 : heap size of the reference world; W : the old buffers that may be written; i : the root operated on.
-   A value is `vok` when its buffer (if any) is in W or was allocated after the reference world. *)
+   A value is `vokn n` when its buffer (if any) is in W or was allocated after the reference world, and is below n. *)
 Section Foot.
   Variable n0 : nat.
   Variable W : nat -> Prop.
   Variable i : nat.
 
-  Definition vok (v : val) : Prop := forall r, vref v = Some r -> W r \/ n0 <= r.
-  Definition Iw (w : world) : Prop := n0 <= length (heap w) /\ vok (r_se (root w i)).
+  Definition vokn (n : nat) (v : val) : Prop := forall r, vref v = Some r -> (W r \/ n0 <= r) /\ r < n.
+  Definition Iw (w : world) : Prop := n0 <= length (heap w) /\ vokn (length (heap w)) (r_se (root w i)).
+
+  Lemma vokn_mono n n' v : n <= n' -> vokn n v -> vokn n' v.
+  Proof. intros Hn Hv r Hr. destruct (Hv r Hr). split; [assumption|lia]. Qed.
 
   Record Rw (w w' : world) : Prop := {
     rw_vars : vars w' = vars w;
@@ -228,106 +231,118 @@ Section Foot.
     - intros r Hr HW. rewrite f2, f1; auto.
   Qed.
 
-  Definition hoare {A} (m : M A) (Q : A -> Prop) : Prop :=
-    forall w, Iw w -> forall w' r, m w = (w', r) -> Iw w' /\ Rw w w' /\ (forall a, r = Ok a -> Q a).
+  (* from every start world whose heap has at least n buffers *)
+  Definition hoare {A} (n : nat) (m : M A) (Q : A -> nat -> Prop) : Prop :=
+    forall w, Iw w -> n <= length (heap w) -> forall w' r, m w = (w', r) ->
+      Iw w' /\ Rw w w' /\ (forall a, r = Ok a -> Q a (length (heap w'))).
 
-  Lemma hoare_ret {A} (a : A) (Q : A -> Prop) : Q a -> hoare (ret a) Q.
+  Lemma hoare_ret {A} n (a : A) (Q : A -> nat -> Prop) : (forall n', n <= n' -> Q a n') -> hoare n (ret a) Q.
   Proof.
-    intros HQ w HI w' r H. unfold ret in H; inversion H; subst. split; [exact HI|split; [apply Rw_refl|]].
-    intros b Hb; inversion Hb; subst; exact HQ.
+    intros HQ w HI Hn w' r H. unfold ret in H; inversion H; subst. split; [exact HI|split; [apply Rw_refl|]].
+    intros b Hb; inversion Hb; subst. apply HQ; exact Hn.
   Qed.
 
-  Lemma hoare_fail {A} e (Q : A -> Prop) : hoare (fail e) Q.
+  Lemma hoare_fail {A} n e (Q : A -> nat -> Prop) : hoare n (fail e) Q.
   Proof.
-    intros w HI w' r H. unfold fail in H; inversion H; subst. split; [exact HI|split; [apply Rw_refl|]].
+    intros w HI Hn w' r H. unfold fail in H; inversion H; subst. split; [exact HI|split; [apply Rw_refl|]].
     intros b Hb; discriminate.
   Qed.
 
-  Lemma hoare_bind {A B} (m : M A) (f : A -> M B) (Q : A -> Prop) (Q' : B -> Prop) :
-    hoare m Q -> (forall a, Q a -> hoare (f a) Q') -> hoare (bind m f) Q'.
+  Lemma hoare_bind {A B} n (m : M A) (f : A -> M B) (Q : A -> nat -> Prop) (Q' : B -> nat -> Prop) :
+    hoare n m Q -> (forall a n1, n <= n1 -> Q a n1 -> hoare n1 (f a) Q') -> hoare n (bind m f) Q'.
   Proof.
-    intros Hm Hf w HI w' r H. apply bind_inv in H as [(w1 & a & H1 & H2)|(e & H1 & ->)].
-    - destruct (Hm w HI _ _ H1) as (HI1 & HR1 & HQ1).
-      destruct (Hf a (HQ1 a eq_refl) w1 HI1 _ _ H2) as (HI2 & HR2 & HQ2).
+    intros Hm Hf w HI Hn w' r H. apply bind_inv in H as [(w1 & a & H1 & H2)|(e & H1 & ->)].
+    - destruct (Hm w HI Hn _ _ H1) as (HI1 & HR1 & HQ1).
+      assert (Hn1 : n <= length (heap w1)) by (pose proof (rw_heap _ _ HR1); lia).
+      destruct (Hf a _ Hn1 (HQ1 a eq_refl) w1 HI1 (le_n _) _ _ H2) as (HI2 & HR2 & HQ2).
       split; [exact HI2|split; [eapply Rw_trans; eauto|exact HQ2]].
-    - destruct (Hm w HI _ _ H1) as (HI1 & HR1 & HQ1). split; [exact HI1|split; [exact HR1|]]. intros b Hb; discriminate.
+    - destruct (Hm w HI Hn _ _ H1) as (HI1 & HR1 & HQ1). split; [exact HI1|split; [exact HR1|]]. intros b Hb; discriminate.
   Qed.
 
-  Lemma hoare_weaken {A} (m : M A) (Q Q' : A -> Prop) : hoare m Q -> (forall a, Q a -> Q' a) -> hoare m Q'.
+  Lemma hoare_weaken {A} n (m : M A) (Q Q' : A -> nat -> Prop) :
+    hoare n m Q -> (forall a n', Q a n' -> Q' a n') -> hoare n m Q'.
   Proof.
-    intros Hm HQ w HI w' r H. destruct (Hm w HI _ _ H) as (A1 & A2 & A3). split; [exact A1|split; [exact A2|]].
+    intros Hm HQ w HI Hn w' r H. destruct (Hm w HI Hn _ _ H) as (A1 & A2 & A3). split; [exact A1|split; [exact A2|]].
     intros a Ha. apply HQ, A3, Ha.
   Qed.
 
-  (* pure reads *)
-  Lemma hoare_pure {A} (g : world -> A) : hoare (fun w => (w, Ok (g w))) (fun _ => True).
-  Proof. intros w HI w' r H. inversion H; subst. split; [exact HI|split; [apply Rw_refl|auto]]. Qed.
+  Lemma hoare_le {A} n n' (m : M A) Q : n <= n' -> hoare n m Q -> hoare n' m Q.
+  Proof. intros Hn Hm w HI Hw. apply Hm; [exact HI|lia]. Qed.
 
-  Lemma hoare_mread r ix : hoare (mread r ix) (fun _ => True).
+  Definition T {A} : A -> nat -> Prop := fun _ _ => True.
+
+  Lemma hoare_pure {A} n (g : world -> A) : hoare n (fun w => (w, Ok (g w))) T.
+  Proof. intros w HI Hn w' r H. inversion H; subst. split; [exact HI|split; [apply Rw_refl|]]. intros; exact I. Qed.
+
+  Lemma hoare_mread n r ix : hoare n (mread r ix) T.
   Proof. apply hoare_pure. Qed.
-  Lemma hoare_mcplx r : hoare (mcplx r) (fun _ => True).
+  Lemma hoare_mcplx n r : hoare n (mcplx r) T.
   Proof. apply hoare_pure. Qed.
 
-  Lemma hoare_get_root : hoare (get_root i) (fun rs => vok (r_se rs)).
+  Lemma hoare_get_root n : hoare n (get_root i) (fun rs n' => vokn n' (r_se rs)).
   Proof.
-    intros w HI w' r H. unfold get_root in H. inversion H; subst. split; [exact HI|split; [apply Rw_refl|]].
+    intros w HI Hn w' r H. unfold get_root in H. inversion H; subst. split; [exact HI|split; [apply Rw_refl|]].
     intros a Ha; inversion Ha; subst. apply HI.
   Qed.
 
-  Lemma hoare_halloc d cx : hoare (halloc d cx) (fun r => n0 <= r).
+  Lemma hoare_halloc n d cx : hoare n (halloc d cx) (fun r n' => n0 <= r /\ r < n').
   Proof.
-    intros w [HI1 HI2] w' r H. unfold halloc in H. inversion H; subst; clear H. cbn.
+    intros w [HI1 HI2] Hn w' r H. unfold halloc in H. inversion H; subst; clear H. cbn.
     split; [|split].
-    - split; cbn. { rewrite app_length; cbn; lia. } exact HI2.
+    - split; cbn. { rewrite app_length; cbn; lia. } eapply vokn_mono; [|exact HI2]. rewrite app_length; lia.
     - constructor; cbn; auto.
       + rewrite app_length; lia.
-      + intros r Hr. unfold set_heap; cbn. rewrite getbuf_app_old by exact Hr. auto.
-      + intros r Hr _. unfold set_heap; cbn. apply getbuf_app_old. lia.
-    - intros a Ha; inversion Ha; subst. exact HI1.
+      + intros r Hr. rewrite getbuf_app_old by exact Hr. auto.
+      + intros r Hr _. apply getbuf_app_old. lia.
+    - intros a Ha; inversion Ha; subst. split; [exact HI1|]. rewrite app_length; cbn; lia.
   Qed.
 
-  Lemma hoare_mwrite r ix vs : (W r \/ n0 <= r) -> hoare (mwrite r ix vs) (fun _ => True).
+  Lemma hoare_mwrite n r ix vs : (W r \/ n0 <= r) -> hoare n (mwrite r ix vs) T.
   Proof.
-    intros Hr w [HI1 HI2] w' res H. unfold mwrite in H. inversion H; subst; clear H.
-    split; [|split]; auto.
-    - split; cbn. { rewrite hwrite_length; exact HI1. } exact HI2.
+    intros Hr w [HI1 HI2] Hn w' res H. unfold mwrite in H. inversion H; subst; clear H.
+    split; [|split]; [| |intros; exact I].
+    - split; cbn; rewrite hwrite_length; assumption.
     - constructor; cbn; auto.
       + rewrite hwrite_length; lia.
       + intros r' _. apply hwrite_meta.
       + intros r' Hr' HW. apply getbuf_hwrite_other. intros ->. destruct Hr; [contradiction|lia].
   Qed.
 
-  Lemma hoare_new_array d cx shp : hoare (new_array d cx shp) vok.
+  Lemma hoare_new_array n d cx shp : hoare n (new_array d cx shp) (fun v n' => vokn n' v).
   Proof.
-    unfold new_array. eapply hoare_bind; [apply hoare_halloc|]. intros r Hr. apply hoare_ret.
-    intros r' E; cbn in E; inversion E; subst. right; exact Hr.
+    unfold new_array. eapply hoare_bind; [apply hoare_halloc|]. intros r n1 Hn1 [Hr1 Hr2]. apply hoare_ret.
+    intros n' Hn' r' E; cbn in E; inversion E; subst. split; [right; exact Hr1|lia].
   Qed.
 
-  Lemma vok_none : vok VNone. Proof. intros r E; discriminate. Qed.
-  Lemma vok_scal c cx np : vok (VScal c cx np). Proof. intros r E; discriminate. Qed.
-  Hint Resolve vok_none vok_scal : core.
+  Lemma vokn_none n : vokn n VNone. Proof. intros r E; discriminate. Qed.
+  Lemma vokn_scal n c cx np : vokn n (VScal c cx np). Proof. intros r E; discriminate. Qed.
+  Hint Resolve vokn_none vokn_scal : core.
 
-  Lemma hoare_getitem v s : hoare (getitem v s) (fun a => vok v -> vok a).
+  Lemma hoare_getitem n v s : hoare n (getitem v s) (fun a n' => vokn n v -> vokn n' a).
   Proof.
     unfold getitem. destruct v as [|c cx np|r ix shp]; try apply hoare_fail.
     destruct (lookup_slc s shp) as [si|]; [|apply hoare_fail].
     destruct (si_kind si).
-    - apply hoare_ret. intros Hv r' E; cbn in E; inversion E; subst. apply Hv; reflexivity.
-    - eapply hoare_bind; [apply hoare_mread|]; intros d _. eapply hoare_bind; [apply hoare_mcplx|]; intros cx _.
+    - apply hoare_ret. intros n' Hn' Hv r' E; cbn in E; inversion E; subst.
+      destruct (Hv r' eq_refl). split; [assumption|lia].
+    - eapply hoare_bind; [apply hoare_mread|]; intros d n1 Hn1 _.
+      eapply hoare_bind; [apply hoare_mcplx|]; intros cx n2 Hn2 _.
       eapply hoare_weaken; [apply hoare_new_array|]. auto.
-    - eapply hoare_bind; [apply hoare_mread|]; intros d _. eapply hoare_bind; [apply hoare_mcplx|]; intros cx _.
+    - eapply hoare_bind; [apply hoare_mread|]; intros d n1 Hn1 _.
+      eapply hoare_bind; [apply hoare_mcplx|]; intros cx n2 Hn2 _.
       apply hoare_ret. auto.
     - apply hoare_fail.
   Qed.
 
-  Lemma hoare_assign r tix isscal shp x : (W r \/ n0 <= r) -> hoare (assign r tix isscal shp x) (fun _ => True).
+  Lemma hoare_assign n r tix isscal shp x : (W r \/ n0 <= r) -> hoare n (assign r tix isscal shp x) T.
   Proof.
     intros Hr. unfold assign. destruct x as [|c cx np|r' ix' shp'].
-    - eapply hoare_bind; [apply hoare_mcplx|]; intros tcx _. apply hoare_fail.
-    - eapply hoare_bind; [apply hoare_mcplx|]; intros tcx _.
+    - eapply hoare_bind; [apply hoare_mcplx|]; intros tcx n1 _ _. apply hoare_fail.
+    - eapply hoare_bind; [apply hoare_mcplx|]; intros tcx n1 _ _.
       destruct (cx && negb tcx); [apply hoare_fail|apply hoare_mwrite; exact Hr].
-    - eapply hoare_bind; [apply hoare_mread|]; intros d _. eapply hoare_bind; [apply hoare_mcplx|]; intros cx _.
-      eapply hoare_bind; [apply hoare_mcplx|]; intros tcx _.
+    - eapply hoare_bind; [apply hoare_mread|]; intros d n1 _ _.
+      eapply hoare_bind; [apply hoare_mcplx|]; intros cx n2 _ _.
+      eapply hoare_bind; [apply hoare_mcplx|]; intros tcx n3 _ _.
       destruct shp'.
       + destruct (cx && negb tcx); [apply hoare_fail|apply hoare_mwrite; exact Hr].
       + destruct isscal; [apply hoare_fail|].
@@ -335,71 +350,78 @@ Section Foot.
         destruct (cx && negb tcx); [apply hoare_fail|apply hoare_mwrite; exact Hr].
   Qed.
 
-  Lemma hoare_setitem v s x : vok v -> hoare (setitem v s x) (fun _ => True).
+  Lemma hoare_setitem n v s x : vokn n v -> hoare n (setitem v s x) T.
   Proof.
     intros Hv. unfold setitem. destruct v as [|c cx np|r ix shp]; try apply hoare_fail.
     destruct (lookup_slc s shp) as [si|]; [|apply hoare_fail].
-    assert (Hr : W r \/ n0 <= r) by (apply Hv; reflexivity).
+    assert (Hr : W r \/ n0 <= r) by (apply (Hv r); reflexivity).
     destruct (si_kind si); try apply hoare_fail; apply hoare_assign; exact Hr.
   Qed.
 
-  Lemma hoare_mul0 v : hoare (mul0 v) vok.
+  Lemma hoare_mul0 n v : hoare n (mul0 v) (fun a n' => vokn n' a).
   Proof.
     unfold mul0. destruct v as [|c cx np|r ix shp]; [apply hoare_fail|apply hoare_ret; auto|].
-    eapply hoare_bind; [apply hoare_mcplx|]; intros cx _.
+    eapply hoare_bind; [apply hoare_mcplx|]; intros cx n1 _ _.
     destruct shp; [apply hoare_ret; auto|apply hoare_new_array].
   Qed.
 
-  Lemma hoare_deepcopy v : hoare (deepcopy v) vok.
+  Lemma hoare_deepcopy n v : hoare n (deepcopy v) (fun a n' => vokn n' a).
   Proof.
     unfold deepcopy. destruct v as [|c cx np|r ix shp]; try (apply hoare_ret; auto).
-    eapply hoare_bind; [apply hoare_mread|]; intros d _. eapply hoare_bind; [apply hoare_mcplx|]; intros cx _.
+    eapply hoare_bind; [apply hoare_mread|]; intros d n1 _ _.
+    eapply hoare_bind; [apply hoare_mcplx|]; intros cx n2 _ _.
     apply hoare_new_array.
   Qed.
 
-  Lemma hoare_iadd t x : vok t -> hoare (iadd t x) vok.
+  Lemma hoare_iadd n t x : vokn n t -> hoare n (iadd t x) (fun a n' => vokn n' a).
   Proof.
     intros Ht. unfold iadd. destruct t as [|c cx np|r ix shp]; [apply hoare_fail| |].
     - destruct x as [|c' cx' np'|r' ix' shp']; [apply hoare_fail|apply hoare_ret; auto|].
-      eapply hoare_bind; [apply hoare_mread|]; intros d _. eapply hoare_bind; [apply hoare_mcplx|]; intros cx0 _.
+      eapply hoare_bind; [apply hoare_mread|]; intros d n1 _ _.
+      eapply hoare_bind; [apply hoare_mcplx|]; intros cx0 n2 _ _.
       destruct shp'; [apply hoare_ret; auto|apply hoare_new_array].
-    - assert (Hr : W r \/ n0 <= r) by (apply Ht; reflexivity).
-      eapply hoare_bind; [apply hoare_mcplx|]; intros tcx _. eapply hoare_bind; [apply hoare_mread|]; intros cur _.
+    - assert (Hr : W r \/ n0 <= r) by (apply (Ht r); reflexivity).
+      assert (Hret : forall n1, n <= n1 -> hoare n1 (ret (VWin r ix shp)) (fun a n' => vokn n' a)).
+      { intros n1 Hn1. apply hoare_ret. intros n' Hn'. eapply vokn_mono; [|exact Ht]. lia. }
+      eapply hoare_bind; [apply hoare_mcplx|]; intros tcx n1 Hn1 _.
+      eapply hoare_bind; [apply hoare_mread|]; intros cur n2 Hn2 _.
       destruct x as [|c' cx' np'|r' ix' shp']; [apply hoare_fail| |].
       + destruct (cx' && negb tcx); [apply hoare_fail|].
-        eapply hoare_bind; [apply hoare_mwrite; exact Hr|]; intros _ _. apply hoare_ret; exact Ht.
-      + eapply hoare_bind; [apply hoare_mread|]; intros d _. eapply hoare_bind; [apply hoare_mcplx|]; intros cx0 _.
+        eapply hoare_bind; [apply hoare_mwrite; exact Hr|]; intros _ n3 Hn3 _. apply Hret; lia.
+      + eapply hoare_bind; [apply hoare_mread|]; intros d n3 Hn3 _.
+        eapply hoare_bind; [apply hoare_mcplx|]; intros cx0 n4 Hn4 _.
         destruct (cx0 && negb tcx); [apply hoare_fail|].
         destruct shp'.
-        * eapply hoare_bind; [apply hoare_mwrite; exact Hr|]; intros _ _. apply hoare_ret; exact Ht.
+        * eapply hoare_bind; [apply hoare_mwrite; exact Hr|]; intros _ n5 Hn5 _. apply Hret; lia.
         * destruct (negb (Zl_eqb (z :: shp') shp)); [apply hoare_fail|].
-          eapply hoare_bind; [apply hoare_mwrite; exact Hr|]; intros _ _. apply hoare_ret; exact Ht.
+          eapply hoare_bind; [apply hoare_mwrite; exact Hr|]; intros _ n5 Hn5 _. apply Hret; lia.
   Qed.
 
-  Lemma hoare_get_se p : hoare (get_se i p) vok.
+  Lemma hoare_get_se n p : hoare n (get_se i p) (fun a n' => vokn n' a).
   Proof.
-    unfold get_se. induction p as [|s p IH]; cbn.
-    - eapply hoare_bind; [apply hoare_get_root|]. intros rs Hrs. apply hoare_ret; exact Hrs.
-    - eapply hoare_bind; [apply IH|]. intros b Hb.
+    unfold get_se. revert n. induction p as [|s p IH]; intros n; cbn.
+    - eapply hoare_bind; [apply hoare_get_root|]. intros rs n1 Hn1 Hrs. apply hoare_ret.
+      intros n' Hn'. eapply vokn_mono; eauto.
+    - eapply hoare_bind; [apply IH|]. intros b n1 Hn1 Hb.
       destruct b; [apply hoare_ret; auto| |]; (eapply hoare_weaken; [apply hoare_getitem|]; auto).
   Qed.
 
-  Lemma hoare_get_st p : hoare (get_st i p) (fun _ => True).
+  Lemma hoare_get_st n p : hoare n (get_st i p) T.
   Proof.
-    unfold get_st. induction p as [|s p IH]; cbn.
-    - eapply hoare_bind; [apply hoare_get_root|]. intros rs _. apply hoare_ret; exact I.
-    - eapply hoare_bind; [apply IH|]. intros b _.
-      destruct b; [apply hoare_ret; auto| |]; (eapply hoare_weaken; [apply hoare_getitem|]; auto).
+    unfold get_st. revert n. induction p as [|s p IH]; intros n; cbn.
+    - eapply hoare_bind; [apply hoare_get_root|]. intros rs n1 _ _. apply hoare_ret; intros; exact I.
+    - eapply hoare_bind; [apply IH|]. intros b n1 _ _.
+      destruct b; [apply hoare_ret; intros; exact I| |]; (eapply hoare_weaken; [apply hoare_getitem|]; intros; exact I).
   Qed.
 
-  Lemma hoare_put_se x : vok x ->
-    hoare (bind (get_root i) (fun rs => put_root i {| r_st := r_st rs; r_se := x; r_keep := r_keep rs |})) (fun _ => True).
+  Lemma hoare_put_se n x : vokn n x ->
+    hoare n (bind (get_root i) (fun rs => put_root i {| r_st := r_st rs; r_se := x; r_keep := r_keep rs |})) T.
   Proof.
-    intros Hx w [HI1 HI2] w' r H. unfold bind, get_root, put_root in H. inversion H; subst; clear H.
+    intros Hx w [HI1 HI2] Hn w' r H. unfold bind, get_root, put_root in H. inversion H; subst; clear H.
     fold (root w i). unfold Iw, root at 1. cbn.
     destruct (Nat.lt_ge_cases i (length (roots w))) as [Hlt|Hge].
-    - split; [|split]; auto.
-      + split; [exact HI1|]. rewrite nth_upd_eq by exact Hlt. exact Hx.
+    - split; [|split]; [| |intros; exact I].
+      + split; [exact HI1|]. rewrite nth_upd_eq by exact Hlt. cbn. eapply vokn_mono; eauto.
       + constructor; unfold root; cbn; auto.
         * apply upd_length.
         * intros j Hj. apply nth_upd_neq. congruence.
@@ -407,61 +429,58 @@ Section Foot.
         * rewrite nth_upd_eq by exact Hlt. reflexivity.
     - rewrite upd_oob by exact Hge.
       replace (set_roots w (roots w)) with w by (destruct w; reflexivity).
-      split; [split; [exact HI1|exact HI2]|split; [apply Rw_refl|auto]].
+      split; [split; [exact HI1|exact HI2]|split; [apply Rw_refl|intros; exact I]].
   Qed.
 
-  Lemma hoare_set_se p : forall x, vok x -> hoare (set_se i p x) (fun _ => True).
+  Lemma hoare_set_se p : forall n x, vokn n x -> hoare n (set_se i p x) T.
   Proof.
-    induction p as [|s p IH]; intros x Hx.
+    induction p as [|s p IH]; intros n x Hx.
     - cbn. apply hoare_put_se; exact Hx.
-    - cbn. eapply hoare_bind; [apply hoare_get_se|]. intros bs Hbs.
-      eapply hoare_bind with (Q := fun _ => True).
-      + destruct (is_none bs); [|apply hoare_ret; exact I].
-        destruct (is_none x); [apply hoare_ret; exact I|].
-        eapply hoare_bind; [apply hoare_get_st|]; intros b _.
-        eapply hoare_bind; [apply hoare_mul0|]; intros z Hz.
-        eapply hoare_bind; [apply IH; exact Hz|]; intros _ _. apply hoare_ret; exact I.
-      + intros cont _. destruct cont; [|apply hoare_ret; exact I].
-        eapply hoare_bind; [apply hoare_get_se|]. intros bs' Hbs'.
+    - cbn. eapply hoare_bind; [apply hoare_get_se|]. intros bs n1 Hn1 Hbs.
+      eapply hoare_bind with (Q := T).
+      + destruct (is_none bs); [|apply hoare_ret; intros; exact I].
+        destruct (is_none x); [apply hoare_ret; intros; exact I|].
+        eapply hoare_bind; [apply hoare_get_st|]; intros b n2 Hn2 _.
+        eapply hoare_bind; [apply hoare_mul0|]; intros z n3 Hn3 Hz.
+        eapply hoare_bind; [apply IH; exact Hz|]; intros _ n4 Hn4 _. apply hoare_ret; intros; exact I.
+      + intros cont n2 Hn2 _. destruct cont; [|apply hoare_ret; intros; exact I].
+        eapply hoare_bind; [apply hoare_get_se|]. intros bs' n3 Hn3 Hbs'.
         apply hoare_setitem; exact Hbs'.
   Qed.
 
-  Lemma hoare_add_se p ds : hoare (add_se i p ds) (fun _ => True).
+  Lemma hoare_add_se n p ds : hoare n (add_se i p ds) T.
   Proof.
-    unfold add_se. destruct (is_none ds); [apply hoare_ret; exact I|].
+    unfold add_se. destruct (is_none ds); [apply hoare_ret; intros; exact I|].
     destruct p as [|s p'].
-    - eapply hoare_bind; [apply hoare_get_se|]. intros cur Hcur.
+    - eapply hoare_bind; [apply hoare_get_se|]. intros cur n1 Hn1 Hcur.
       destruct (is_none cur).
-      + eapply hoare_bind; [apply hoare_deepcopy|]. intros c Hc. apply hoare_set_se; exact Hc.
-      + eapply hoare_bind; [apply hoare_iadd; exact Hcur|]. intros t Ht. apply hoare_set_se; exact Ht.
-    - eapply hoare_bind; [apply hoare_get_se|]. intros bs Hbs.
-      eapply hoare_bind with (Q := fun _ => True).
-      + destruct (is_none bs); [|apply hoare_ret; exact I].
-        eapply hoare_bind; [apply hoare_get_st|]; intros b _.
-        eapply hoare_bind; [apply hoare_mul0|]; intros z Hz. apply hoare_set_se; exact Hz.
-      + intros _ _. eapply hoare_bind; [apply hoare_get_se|]. intros _ _.
-        eapply hoare_bind; [apply hoare_get_se|]. intros cur Hcur.
-        eapply hoare_bind; [apply hoare_iadd; exact Hcur|]. intros t Ht. apply hoare_set_se; exact Ht.
+      + eapply hoare_bind; [apply hoare_deepcopy|]. intros c n2 Hn2 Hc. apply hoare_set_se; exact Hc.
+      + eapply hoare_bind; [apply hoare_iadd; exact Hcur|]. intros t n2 Hn2 Ht. apply hoare_set_se; exact Ht.
+    - eapply hoare_bind; [apply hoare_get_se|]. intros bs n1 Hn1 Hbs.
+      eapply hoare_bind with (Q := T).
+      + destruct (is_none bs); [|apply hoare_ret; intros; exact I].
+        eapply hoare_bind; [apply hoare_get_st|]; intros b n2 Hn2 _.
+        eapply hoare_bind; [apply hoare_mul0|]; intros z n3 Hn3 Hz. apply hoare_set_se; exact Hz.
+      + intros _ n2 Hn2 _. eapply hoare_bind; [apply hoare_get_se|]. intros _ n3 Hn3 _.
+        eapply hoare_bind; [apply hoare_get_se|]. intros cur n4 Hn4 Hcur.
+        eapply hoare_bind; [apply hoare_iadd; exact Hcur|]. intros t n5 Hn5 Ht. apply hoare_set_se; exact Ht.
   Qed.
 
-  Lemma hoare_reset p k : hoare (reset i p k) (fun _ => True).
+  Lemma hoare_reset n p k : hoare n (reset i p k) T.
   Proof.
     unfold reset. destruct p as [|s p'].
-    - intros w HI w' r H.
-      assert (Hput : forall x, vok x ->
-                hoare (bind (get_root i) (fun rs => put_root i {| r_st := r_st rs; r_se := x; r_keep := r_keep rs |})) (fun _ => True))
-        by (intros; apply hoare_put_se; assumption).
+    - intros w HI Hn w' r H.
       unfold bind at 1 in H. unfold get_root in H. fold (root w i) in H.
       destruct (r_se (root w i)) as [|c cx np|r0 ix shp] eqn:Ese.
-      + unfold ret in H; inversion H; subst. split; [exact HI|split; [apply Rw_refl|auto]].
+      + unfold ret in H; inversion H; subst. split; [exact HI|split; [apply Rw_refl|intros; exact I]].
       + destruct (match k with Some b => b | None => r_keep (root w i) end).
-        * apply (Hput (VScal c0 cx np) (vok_scal _ _ _) w HI w' r). unfold bind, get_root. exact H.
-        * apply (Hput VNone vok_none w HI w' r). unfold bind, get_root. exact H.
+        * apply (hoare_put_se n (VScal c0 cx np) (vokn_scal _ _ _ _) w HI Hn w' r). unfold bind, get_root. exact H.
+        * apply (hoare_put_se n VNone (vokn_none _) w HI Hn w' r). unfold bind, get_root. exact H.
       + destruct (match k with Some b => b | None => r_keep (root w i) end).
-        * assert (Hr : W r0 \/ n0 <= r0) by (destruct HI as [_ HI2]; apply HI2; rewrite Ese; reflexivity).
-          exact (hoare_mwrite r0 ix _ Hr w HI w' r H).
-        * apply (Hput VNone vok_none w HI w' r). unfold bind, get_root. exact H.
-    - eapply hoare_bind; [apply hoare_get_se|]. intros cur _.
-      destruct (is_none cur); [apply hoare_ret; exact I|]. apply hoare_set_se. apply vok_none.
+        * assert (Hr : W r0 \/ n0 <= r0) by (destruct HI as [_ HI2]; apply (HI2 r0); rewrite Ese; reflexivity).
+          exact (hoare_mwrite n r0 ix _ Hr w HI Hn w' r H).
+        * apply (hoare_put_se n VNone (vokn_none _) w HI Hn w' r). unfold bind, get_root. exact H.
+    - eapply hoare_bind; [apply hoare_get_se|]. intros cur n1 Hn1 _.
+      destruct (is_none cur); [apply hoare_ret; intros; exact I|]. apply hoare_set_se. apply vokn_none.
   Qed.
 End Foot.
